@@ -306,7 +306,7 @@ class EndToEnd(Case):
 
     def inputs(self, mk):
         p = self.params
-        specs = [shell_spec(mk, "ABCD"[i], l, K, M) for i, (l, K, M) in enumerate(zip(p["ls"], p["Ks"], p["Ms"]))]
+        specs = cm.specs_from(mk, p)
         nb = sum(cm.nfun(l, t) * M for l, t, M in zip(p["ls"], p["types"], p["Ms"]))
         return dict(specs=specs, P=sym_matrix(mk, nb), pt=[mk.var("P" + x) for x in "xyz"])
 
